@@ -557,8 +557,27 @@ def packed_insts():
     return out
 
 
-def gen_packed(rng, tier):
+def gen_packed_far(rng, tier):
+    """elements whose bit position index*bits reaches and passes 2^32 (and 2^33): a 32-bit product would wrap"""
     ops = []
+    insts = [i for i in packed_insts() if i[2] != "p" and i[0] >= 2]
+    fixed = [(12, 32, "d"), (12, 8, "d"), (12, 8, "c"), (12, 32, "q"), (32, 32, "d"), (7, 64, "d"), (3, 8, "c"),
+             (17, 16, "d"), (2, 8, "d"), (31, 64, "d")]
+    pick = [i for i in fixed if i in insts] + rng.sample(insts, 6 if tier == "quick" else 40)
+    for (b, S, var) in pick:
+        first = -(-(1 << 32) // b)             # first index with index*b >= 2^32
+        cands = [first - 2, first, first + rng.randrange(1, 1000)]
+        second = -(-(1 << 33) // b)
+        if second + 4 < (1 << 32) - 1:
+            cands.append(second)
+        for i0 in cands:
+            if 16 <= i0 and i0 + 4 < (1 << 32) - 1:
+                ops.append(f"packed.far b={hx(b)} s={hx(S)} v={var} i={hx(i0)}")
+    return ops
+
+
+def gen_packed(rng, tier):
+    ops = gen_packed_far(rng, tier)
     reps = 1 if tier == "quick" else 6
     for (b, S, var) in packed_insts():
         vmax = (1 << b) - 1
@@ -701,6 +720,45 @@ def gen_bitmap(rng, tier):
             else:
                 toks.append("swap")
         ops.append("bitmap.hist " + " ".join(toks))
+    # container-state matrix: each operand is put into one of the internal containers while holding only a FEW
+    # members taken from a narrow zone (first byte of the bit array, last byte, around a byte boundary, middle),
+    # then every set operation is applied in both operand orders, followed by clone/serialise of the result.
+    #   A = array container, few members;  B = dense container with few members (grown past 4096, cleared, refilled:
+    #   Clear keeps the container type);  R = one long run (add-range on an empty set);  D = dense, many members
+    zones = [[0, 1, 2, 5, 7], [6, 7, 8, 9, 15, 16], [65528, 65530, 65535], [32767, 32768, 40000], [0, 65535], [3]]
+
+    def setup(pfx, kind, members):
+        t = []
+        if kind == "A":
+            t += [f"{pfx}add:{hx(v)}" for v in members]
+        elif kind == "B":
+            t += [f"{pfx}add:{hx(1)}", f"{pfx}addr:0:{hx(rng.choice([4200, 5000]))}", f"{pfx}clear"]
+            t += [f"{pfx}add:{hx(v)}" for v in members]
+        elif kind == "R":
+            lo = rng.choice([0, 3, 60000 - 4200])
+            t += [f"{pfx}addr:{hx(lo)}:{hx(lo + rng.choice([4097, 4200]))}"]
+        else:
+            t += [f"{pfx}add:{hx(9)}", f"{pfx}addr:0:{hx(rng.choice([4300, 6000]))}"]
+            t += [f"{pfx}add:{hx(v)}" for v in members]
+        return t
+
+    kinds = ["A", "B", "R", "D"]
+    zi = 0
+    for ka in kinds:
+        for kb in kinds:
+            for op in ("and", "or", "xor", "andnot"):
+                # the unusual state (dense container, few members) is swept over every zone; the others rotate
+                zsel = range(len(zones)) if "B" in (ka, kb) else [zi % len(zones)]
+                zi += 1
+                for z in zsel:
+                    za = zones[z]
+                    ma = rng.sample(za, rng.randint(max(1, len(za) - 2), len(za)))
+                    shared = rng.choice([v for v in ma if v % 8 != 0] or ma)
+                    others = [v for v in rng.choice(zones) if v != shared]
+                    mb = [shared] + rng.sample(others, min(len(others), rng.randint(0, max(0, len(ma) - 1))))
+                    toks = setup("", ka, ma) + setup("b.", kb, mb)
+                    toks += [op, "swap", op, "enc", op]
+                    ops.append("bitmap.hist " + " ".join(toks))
     return ops
 
 
